@@ -110,3 +110,59 @@ Theorem C10_merge2_order_kwo : forall a b r : sigT, merge [a; b] = Ok r -> valid
 Proof. exact @ContribMore.merge2_order_kwo. Qed.
 Print Assumptions C10_merge2_order_kwo.
 
+
+(* ---- order clause for merge (binary and n-ary), contributors and order for forwards (Proofs/ContribOrder.v, ContribForwards.v) ---- *)
+From Sigtools.Proofs Require Import ContribOrder.
+Theorem C10_merge2_order : forall a b r : sigT, merge [a; b] = Ok r -> valid_sig (params a) = true -> valid_sig (params b) = true -> exists cs : list contribs, Forall2 pos_made cs (positional (params r)) /\ Sub (omap fst cs) (positional (params a)) /\ Sub (omap snd cs) (positional (params b)).
+Proof. exact @ContribOrder.merge2_order. Qed.
+Print Assumptions C10_merge2_order.
+
+Theorem C10_merge2_order_sorted : forall a b r : sigT, merge [a; b] = Ok r -> exists cs : list contribs, Forall2 pos_made cs (positional (params r)) /\ Sub (omap fst cs) (posargs (sort_params a) ++ pokargs (sort_params a)) /\ Sub (omap snd cs) (posargs (sort_params b) ++ pokargs (sort_params b)).
+Proof. exact @ContribOrder.merge2_order_sorted. Qed.
+Print Assumptions C10_merge2_order_sorted.
+
+Theorem C10_merge2_order_explicit : forall a b r : sigT, merge [a; b] = Ok r -> valid_sig (params a) = true -> valid_sig (params b) = true -> let LP := positional (params a) in let RP := positional (params b) in exists zs ks kept : list param, positional (params r) = zs ++ ks /\ Forall2 restr (zipl LP RP) zs /\ Forall2 restr kept ks /\ Sub kept (skipn (length RP) LP ++ skipn (length LP) RP).
+Proof. exact @ContribOrder.merge2_order_explicit. Qed.
+Print Assumptions C10_merge2_order_explicit.
+
+Theorem C10_merge2_order_pairwise : forall a b r : sigT, merge [a; b] = Ok r -> valid_sig (params a) = true -> valid_sig (params b) = true -> forall p p' : param, before p p' (positional (params r)) -> exists c c' : contribs, pos_made c p /\ pos_made c' p' /\ (forall q q' : param, fst c = Some q -> fst c' = Some q' -> before q q' (positional (params a))) /\ (forall q q' : param, snd c = Some q -> snd c' = Some q' -> before q q' (positional (params b))).
+Proof. exact @ContribOrder.merge2_order_pairwise. Qed.
+Print Assumptions C10_merge2_order_pairwise.
+
+Theorem C10_merge2_order_needs_valid : exists a b r : sigT, valid_sig (params b) = true /\ merge [a; b] = Ok r /\ names_of (positional (params b)) = [] /\ names_of (positional (params a)) = [1; 2] /\ names_of (positional (params r)) = [2; 1].
+Proof. exact @ContribOrder.merge2_order_needs_valid. Qed.
+Print Assumptions C10_merge2_order_needs_valid.
+
+Theorem C10_merge2_order_kwo_refuted : exists a b r : sigT, valid_sig (params a) = true /\ valid_sig (params b) = true /\ merge [a; b] = Ok r /\ names_of (kwonly (params a)) = [1; 2] /\ names_of (kwonly (params b)) = [2] /\ names_of (kwonly (params r)) = [2; 1] /\ (forall p : param, In p (kwonly (params r)) -> exists q : param, In q (kwonly (params a)) /\ pname q = pname p).
+Proof. exact @ContribOrder.merge2_order_kwo_refuted. Qed.
+Print Assumptions C10_merge2_order_kwo_refuted.
+
+Theorem C10_merge2_order_kwo_partial : forall a b r : sigT, merge [a; b] = Ok r -> valid_sig (params a) = true -> valid_sig (params b) = true -> let LP := positional (params a) in let RP := positional (params b) in let lA := names_of (filter (is_kind PK) (skipn (length RP) LP)) in let lB := names_of (filter (is_kind PK) (skipn (length LP) RP)) in let KA := names_of (kwonly (params a)) in let KB := names_of (kwonly (params b)) in let RK := names_of (kwonly (params r)) in filter (fun x : N => mem x KA && mem x KB) RK = filter (fun x : N => mem x KB) KA /\ filter (fun x : N => mem x KA && negb (mem x KB) && negb (mem x lB)) RK = (if has_kind VK (params b) then filter (fun x : N => negb (mem x KB) && negb (mem x lB)) KA else []) /\ filter (fun x : N => mem x KB && negb (mem x KA) && negb (mem x lA)) RK = (if has_kind VK (params a) then filter (fun x : N => negb (mem x KA) && negb (mem x lA)) KB else []) /\ filter (fun x : N => mem x lA) RK = filter (fun x : N => mem x KB || has_kind VK (params b) && negb (has_kind VP (params b))) lA /\ filter (fun x : N => mem x lB) RK = filter (fun x : N => mem x KA || has_kind VK (params a) && negb (has_kind VP (params a))) lB.
+Proof. exact @ContribOrder.merge2_order_kwo_partial. Qed.
+Print Assumptions C10_merge2_order_kwo_partial.
+
+Theorem C10_merge_order : forall (ss : list sigT) (r : sigT), merge ss = Ok r -> exists cvs : list (list (option param)), Forall2 madeN cvs (positional (params r)) /\ Forall (fun cv : list (option param) => length cv = length ss) cvs /\ (forall (k : nat) (s : sigT), nth_error ss k = Some s -> Sub (omap (slot k) cvs) (PS s)).
+Proof. exact @ContribOrder.merge_order. Qed.
+Print Assumptions C10_merge_order.
+
+Theorem C10_merge_order_valid : forall (ss : list sigT) (r : sigT), merge ss = Ok r -> Forall (fun s : sigT => valid_sig (params s) = true) ss -> exists cvs : list (list (option param)), Forall2 madeN cvs (positional (params r)) /\ Forall (fun cv : list (option param) => length cv = length ss) cvs /\ (forall (k : nat) (s : sigT), nth_error ss k = Some s -> Sub (omap (slot k) cvs) (positional (params s))) /\ (forall (k : nat) (s : sigT) (cv cv' : list (option param)) (q q' : param), nth_error ss k = Some s -> before cv cv' cvs -> slot k cv = Some q -> slot k cv' = Some q' -> before q q' (positional (params s))).
+Proof. exact @ContribOrder.merge_order_valid. Qed.
+Print Assumptions C10_merge_order_valid.
+
+From Sigtools.Proofs Require Import ContribForwards.
+Theorem C10_forwards_made : forall (o i : sigT) (n : nat) (names0 : list name) (ha hk uva uvk pt : bool) (r : sigT) (p : param), forwards o i n names0 ha hk uva uvk pt = Ok r -> In p (params r) -> (exists q : param, In q (params o) /\ pname p = pname q /\ pann p = pann q /\ puann p = puann q /\ kind_ok (pkind q) (pkind p) /\ (pdef p = pdef q \/ is_positional q = true /\ pdef p = None)) \/ (exists q : param, In q (params i) /\ pname p = pname q /\ pann p = pann q /\ puann p = puann q /\ kind_ok (pkind q) (pkind p) /\ pdef p = pdef (if pt then defaulted q else q)) \/ (exists a b : param, In a (params i) /\ In b (params o) /\ (pkind a = VP \/ pkind a = VK) /\ pkind b = pkind a /\ p = concile a b).
+Proof. exact @ContribForwards.forwards_made. Qed.
+Print Assumptions C10_forwards_made.
+
+Theorem C10_forwards_order : forall (o i : sigT) (n : nat) (names0 : list name) (ha hk uva uvk pt : bool) (r : sigT), forwards o i n names0 ha hk uva uvk pt = Ok r -> valid_sig (params o) = true -> valid_sig (params i) = true -> names_of (positional (params r)) = names_of (positional (params o)) ++ filter (fun x : N => mem x (names_of (positional (params r))) && negb (mem x (names_of (positional (params o))))) (names_of (positional (params i))) /\ (exists m : sigT, mask {| params := finner pt (params i); ret := ret i; uret := uret i; srcs := srcs i; deps := deps i |} n names0 {| h_args := ha; h_kwargs := hk; h_varargs := false; h_varkwargs := false |} = Ok m /\ names_of (positional (params m)) = filter (fun x : N => mem x (names_of (positional (params m)))) (names_of (positional (params i))) /\ names_of (kwonly (params r)) = names_of (kwonly (params o)) ++ filter (fun x : N => mem x (names_of (kwonly (params r))) && negb (mem x (names_of (kwonly (params o))))) (names_of (positional (params m) ++ kwonly (params m)))).
+Proof. exact @ContribForwards.forwards_order. Qed.
+Print Assumptions C10_forwards_order.
+
+Theorem C10_forwards_order_pairwise : forall (o i : sigT) (n : nat) (names0 : list name) (ha hk uva uvk pt : bool) (r : sigT) (x y : name), forwards o i n names0 ha hk uva uvk pt = Ok r -> valid_sig (params o) = true -> valid_sig (params i) = true -> let RP := names_of (positional (params r)) in let OP := names_of (positional (params o)) in let IP := names_of (positional (params i)) in In x RP -> In y RP -> (before x y OP -> before x y RP) /\ (~ In x OP -> ~ In y OP -> before x y IP -> before x y RP) /\ (In x OP -> ~ In y OP -> before x y RP).
+Proof. exact @ContribForwards.forwards_order_pairwise. Qed.
+Print Assumptions C10_forwards_order_pairwise.
+
+Theorem C10_mask_gen_valid : forall (s : sigT) (n : nat) (h : hideflags) (named : list (name * N)) (pm : pmode) (r : sigT), mask_gen s n h named pm = Ok r -> valid_sig (params r) = true.
+Proof. exact @ContribForwards.mask_gen_valid. Qed.
+Print Assumptions C10_mask_gen_valid.
+
